@@ -230,7 +230,7 @@ func (s *manager) shutdownSession(ctx context.Context, session *sessions.Session
 	}
 	metadata, err := s.state.SessionMetadatas().ByClientID(session.ClientID())
 	if err == nil {
-		if metadata.SessionID != session.ID() || session.Disconnected {
+		if metadata.SessionID != session.ID() {
 			// Session has reconnected on another peer.
 			return
 		}
